@@ -61,7 +61,7 @@ def run(ctx):
         n, q = configs[i % len(configs)]
         out = os.path.join(ctx.work, "sd%d.ndjson" % i)
         rc, so, se = sh([exe, "shutdown-trace", "-seed", str(ctx.seed * 1000 + i), "-n", str(per), "-pool", str(n), "-q", str(q),
-                         "-ctx", "6000", "-out", out], timeout=3400)
+                         "-ctx", "6000", "-out", out] + (["-abort"] if i % len(configs) >= 5 else []), timeout=3400)
         return (n, q), out, [int(x) for x in so.split()[-7:]]
 
     with ThreadPoolExecutor(max_workers=len(configs)) as ex:
@@ -101,11 +101,24 @@ def run(ctx):
                                                           ":" + f["invariant"][0] if f["invariant"] else "")
                     what = "run is not a behaviour of ServerShutdown at event %s" % json.dumps(ev)
                 ctx.violate(sig, what, {"n": n, "q": q, "trace": t, "offset": f["offset"]})
+    # the Shutdown context (6 s) is longer than every handler (<= 2.7 s) plus the close ticks: a run whose context expired although
+    # everything read was answered did not "return once all connections have drained" (one such run may be a loaded machine)
+    late = [t for ts in groups.values() for t in ts
+            if any(e["e"] == "ShutdownEnd" and e["expired"] for e in t)
+            and {e["r"] for e in t if e["e"] == "Read"} <= ({e["r"] for e in t if e["e"] == "Written"} | {3, 6})]
+    if len(late) >= 2:
+        t = late[0]
+        kind = "one-way-request" if any(e["e"] == "Read" and e["r"] in (3, 6) for e in t) else "all-answered"
+        ctx.violate("C12:shutdown-ran-to-its-deadline:%s" % kind,
+                    "in %d runs every request read was handled and answered, yet Shutdown only returned when its %d ms context expired "
+                    "(connections never drained): %s" % (len(late), 6000, [e for e in t if e["e"] == "ShutdownEnd"]),
+                    {"n": t[0]["n"], "q": t[0]["q"], "trace": t})
     # binding self-test on an accepted trace
     base = None
     for traces in groups.values():
         for t in traces:
-            if sum(1 for e in t if e["e"] == "Written") >= 1 and any(e["e"] == "ConnClosed" for e in t):
+            ws = [e for e in t if e["e"] == "Written"]
+            if ws and any(e["e"] == "ConnClosed" and e["c"] == 2 - ws[-1]["r"] % 2 for e in t) and not any(e["e"] == "ClientAbort" for e in t):
                 base = t
                 break
         if base:
